@@ -184,24 +184,70 @@ theorem eor_purge (p : Peer) (f : Nat) (he : p.est = true) (hpr : p.peerRestarti
     simp only [h', Bool.false_eq_true, if_false, Bool.not_false]
     exact ⟨rfl, hpr⟩
 
+theorem estDefer_rib (p : Peer) : (estDefer p).rib = p.rib ∧ (estDefer p).peerRestarting = p.peerRestarting := by
+  unfold estDefer
+  split
+  · exact ⟨rfl, rfl⟩
+  · split <;> exact ⟨rfl, rfl⟩
+
+/-- RFC 4724 §4.2 at re-establishment, for every family at once: after the transition to ESTABLISHED a
+stale route survives only if its family is listed in the NEW GR capability with the Forwarding State bit
+set; nothing else is removed (fresh routes and stale routes of such families stay). -/
+theorem reestablish_drops_unlisted (p : Peer) (hpr : p.peerRestarting = true) :
+    (∀ r ∈ (onEstablished p).rib, r.stale = true → (keepFams p).contains r.fam = true) ∧
+    (∀ r ∈ p.rib, (r.stale = false ∨ (keepFams p).contains r.fam = true) → r ∈ (onEstablished p).rib) := by
+  have hrib : (onEstablished p).rib = dropStaleUnlisted p := by
+    rw [onEstablished, (estDefer_rib _).1]
+    simp only [estPurge, hpr, if_true]
+  rw [hrib]
+  constructor
+  · intro r hr hs
+    simp only [dropStaleUnlisted, List.mem_filter, hs, Bool.true_and, Bool.not_not] at hr
+    exact hr.2
+  · intro r hr h
+    simp only [dropStaleUnlisted, List.mem_filter]
+    refine ⟨hr, ?_⟩
+    rcases h with h | h
+    · simp [h]
+    · have h' : r.fam ∈ keepFams p := by simpa using h
+      simp [h']
+
 /-- A peer that comes back listing no GR family at all (e.g. without the capability) has its stale
-routes removed at once. -/
+routes removed at once and the restart ends. -/
 theorem reestablish_without_gr_purges (p : Peer) (hpr : p.peerRestarting = true)
     (hg : (grFams p).isEmpty = true) :
-    (onEstablished p).rib.all (fun r => !r.stale) = true ∧ (onEstablished p).peerRestarting = false := by
-  unfold onEstablished
-  simp only [hpr, hg, Bool.and_self, if_true]
+    (∀ r ∈ (onEstablished p).rib, r.stale = false) ∧ (onEstablished p).peerRestarting = false := by
   constructor
-  · have hq : (dropStale (stopPeerRestarting p).rib).all (fun r => !r.stale) = true := by
-      simp [dropStale, List.all_filter]
-    split
-    · exact hq
-    · split
-      · exact hq
-      · exact hq
-  · split
+  · intro r hr
+    cases hs : r.stale
     · rfl
-    · split <;> rfl
+    · have := (reestablish_drops_unlisted p hpr).1 r hr hs
+      have hk : keepFams p = [] := by
+        have : grFams p = [] := by simpa using hg
+        simp [keepFams, this]
+      simp [hk] at this
+  · rw [onEstablished, (estDefer_rib _).2]
+    simp [estPurge, hpr, hg, stopPeerRestarting]
+
+/-- When the restart completes — the End-of-RIB that makes the set of awaited markers complete — no
+stale route of ANY address family remains, whatever families the new session negotiated, and the
+restarting state is over. -/
+theorem restart_complete_no_stale (p : Peer) (f : Nat) (he : p.est = true) (hpr : p.peerRestarting = true)
+    (hall : allEOR (markEOR p f) = true) :
+    (∀ r ∈ (onEOR p f).rib, r.stale = false) ∧ (onEOR p f).peerRestarting = false := by
+  have hl : ∀ q : Peer, q.peerRestarting = true → allEOR q = true →
+      (∀ r ∈ (eorPeer q).rib, r.stale = false) ∧ (eorPeer q).peerRestarting = false := by
+    intro q h1 h2
+    simp only [eorPeer, h1, h2, if_true]
+    constructor
+    · intro r hr
+      simp only [dropStale, List.mem_filter] at hr
+      simpa using hr.2
+    · rfl
+  simp only [onEOR, he, Bool.not_true, Bool.false_eq_true, if_false]
+  apply hl
+  · unfold eorLocal; split <;> exact hpr
+  · unfold eorLocal; split <;> exact hall
 
 /-- What the negotiation of a new session yields depends on the new OPEN and the local configuration
 only, never on what an earlier session negotiated. -/
@@ -354,7 +400,7 @@ otherwise a deferral timer is started and `LocalRestarting` stays. -/
 theorem deferral_on_established (p : Peer) (h : p.localRestarting = true) (hpr : p.peerRestarting = false) :
     (onEstablished p).localRestarting = !(allEOR p) ∧
     (allEOR p = false → (onEstablished p).defTimers = p.defTimers ++ [(p.now + p.deferral, p.deferral)]) := by
-  by_cases ha : allEOR p = true <;> simp [onEstablished, h, hpr, ha]
+  by_cases ha : allEOR p = true <;> simp [onEstablished, estPurge, estDefer, h, hpr, ha]
 
 /-- An End-of-RIB ends the deferral iff it is the last one awaited. -/
 theorem eorPeer_localRestarting (q : Peer) : (eorPeer q).localRestarting = q.localRestarting := by
